@@ -175,6 +175,16 @@ func c17Responder(name string, sent *sync.Map) func(w http.ResponseWriter, r *ht
 			}
 			out = bytes.Repeat([]byte("partial-"+id+"\n"), 60)
 			abort = true
+		case c17RespCache:
+			h["Content-Type"] = []string{"text/css"}
+			h["Cache-Control"] = []string{"public, max-age=600"}
+			h["Expires"] = []string{"Thu, 01 Jan 2099 00:00:00 GMT"}
+			h["Pragma"] = []string{"cache"}
+			h["Vary"] = []string{"Accept-Encoding", "Origin"}
+			h["Etag"] = []string{`"css-1"`}
+			h["Last-Modified"] = []string{"Mon, 01 Jan 2001 00:00:00 GMT"}
+			h["Age"] = []string{"17"}
+			out = []byte("body{color:red} /* " + id + " */")
 		case c17RespSlow: // starts at once, then streams for 1.8 s with every gap (300 ms) far below any configured timeout
 			h["Content-Type"] = []string{"application/octet-stream"}
 			out = bytes.Repeat([]byte("slow-"+id+"\n"), 6*40)
@@ -690,6 +700,36 @@ func (j *c17Judge) judgeResponse(c *c17Case, resp *vfResp, x *c17WireX) []c17Fin
 		add("c17:response-header-changed", "Gap-Auth (documented addition) is %q", ga)
 	}
 	delete(got, "Gap-Auth")
+	// the proxy's own session cookie (set when this request refreshed the session) is the documented addition to Set-Cookie
+	if sc := got["Set-Cookie"]; len(sc) > 0 {
+		upstreamOwn := map[string]int{}
+		for _, l := range s.Header["Set-Cookie"] {
+			upstreamOwn[l]++
+		}
+		var rest []string
+		proxyCookies := 0
+		for _, l := range sc {
+			if strings.HasPrefix(l, "_oauth2_proxy") && upstreamOwn[l] == 0 {
+				proxyCookies++
+				continue
+			}
+			if upstreamOwn[l] > 0 {
+				upstreamOwn[l]--
+			}
+			rest = append(rest, l)
+		}
+		if proxyCookies > 0 {
+			j.run.Count("accepted_proxy_session_cookie_on_proxied_response", 1)
+			if c.Refresh {
+				j.run.Count("judged_requests_that_refreshed_the_session", 1)
+			}
+			if len(rest) == 0 {
+				delete(got, "Set-Cookie")
+			} else {
+				got["Set-Cookie"] = rest
+			}
+		}
+	}
 	if s.NoCT && len(s.Body) > 0 {
 		if _, ok := got["Content-Type"]; ok {
 			j.run.Count("accepted_sniffed_content_type_when_upstream_sent_none", 1)
@@ -956,7 +996,19 @@ func (j *c17Judge) judgeUnder(s *c17Set, d c17Decision, c *c17Case, req *vfReq, 
 }
 
 func (j *c17Judge) judge(s *c17Set, c *c17Case) {
-	req, body := c17Request(c, s.Cookie)
+	cookie := s.Cookie
+	if c.Refresh {
+		b := vfNewBrowser("")
+		if _, _, err := b.Login(s.Proxy, vfStdIdentity, "/"); err != nil {
+			j.run.Inconclusive("refresh case: login failed: " + vfTrunc(err.Error(), 60))
+			return
+		}
+		cookie = vfCookieHeader(b.Jar.For("proxy.test", "/", false))
+		// the age test truncates "now" to whole seconds (Age = trunc(now) - CreatedAt > 1s), so only after 2 s is the
+		// session certainly "older than --cookie-refresh=1s"
+		time.Sleep(2300 * time.Millisecond)
+	}
+	req, body := c17Request(c, cookie)
 	resp, interim := c17Wire(s.Proxy, req, c.WS, c.ID, c.SlowUp)
 	run := j.run
 	if resp.Err != "" && strings.HasPrefix(resp.Err, "read:") && !strings.Contains(resp.Err, "timeout") {
@@ -977,6 +1029,9 @@ func (j *c17Judge) judge(s *c17Set, c *c17Case) {
 		}
 		run.Eval("")
 		return
+	}
+	if c.Refresh && os.Getenv("C17_DEBUG") != "" {
+		fmt.Printf("NOTE refresh case %s %s -> %d set-cookie=%d err=%q idp.refresh=%s\n", c.ID, c.Target(), resp.Code, len(resp.SetCookies()), resp.Err, func() string { a, ok := j.w.IdP.RefreshGrants(); return fmt.Sprint(a, "/", ok) }())
 	}
 	hits, nHits := j.collectHits(c.ID)
 	decisions := c17Decide(s.Ups, s.Raw, c.Path)
@@ -1004,6 +1059,9 @@ func (j *c17Judge) judge(s *c17Set, c *c17Case) {
 	}
 	if len(decisions) > 1 {
 		run.Count("raw_mode_readings_differ", 1)
+	}
+	if c.Refresh && os.Getenv("C17_DEBUG") != "" {
+		fmt.Printf("NOTE refresh case %s decision=%s findings=%v setcookie=%q\n", c.ID, bestD, best, vfTrunc(strings.Join(resp.SetCookies(), " | "), 150))
 	}
 	kind := bestD.Kind
 	if bestD.Kind == "upstream" {
@@ -1175,7 +1233,7 @@ func TestVerif_C17(t *testing.T) {
 		run.Count("sets", 1)
 		s.Proxy.Server().Close() // waits for the connection goroutines of this instance
 	}
-	for _, must := range []string{"slow_streamed_responses_under_short_timeout", "slow_uploads_under_short_timeout", "websocket_tunnels", "upstream_aborts_mid_body", "upstream_aborts_before_headers", "responses_with_informational_prelude", "decision_http", "decision_http+rewrite", "decision_static", "decision_file", "decision_file+rewrite", "decision_redirect-clean", "decision_redirect-slash", "decision_notfound"} {
+	for _, must := range []string{"judged_requests_that_refreshed_the_session", "slow_streamed_responses_under_short_timeout", "slow_uploads_under_short_timeout", "websocket_tunnels", "upstream_aborts_mid_body", "upstream_aborts_before_headers", "responses_with_informational_prelude", "decision_http", "decision_http+rewrite", "decision_static", "decision_file", "decision_file+rewrite", "decision_redirect-clean", "decision_redirect-slash", "decision_notfound"} {
 		if run.Counter(must) == 0 {
 			run.Inconclusive("no case exercised " + must)
 			fmt.Printf("INCONCLUSIVE property=C17 reason=no case exercised %s\n", must)
